@@ -53,6 +53,9 @@ def ndOptJ : NdOpt → J
 
 def bitJ (n k : Nat) : J := J.bool ((n / k) % 2 = 1)
 
+def rrJ (r : DnsRR) : J :=
+  J.arr [J.ofBytes r.name, J.ofNat r.qtype, J.ofNat r.qclass, J.ofNat r.ttl, J.ofNat r.rdlen, J.ofNat r.rdKind, J.ofBytes r.rd]
+
 /-- (class key, whether the Python object keeps `raw`, attributes) of a phase-2 header object -/
 def extJ : Ext → String × Bool × List (String × J)
   | .mpls h => ("mpls", true, [("label", J.ofNat h.label), ("tc", J.ofNat h.tc), ("s", J.ofNat h.s), ("ttl", J.ofNat h.ttl)])
@@ -63,7 +66,9 @@ def extJ : Ext → String × Bool × List (String × J)
       ("entries", J.arr (h.entries.map fun e => J.arr [J.ofNat e.af, J.ofNat e.tag, J.ofNat e.ip, J.ofNat e.mask, J.ofNat e.nh, J.num e.metric]))])
   | .dns h => ("dns", true, [("id", J.ofNat h.id), ("qr", bitJ h.bits0 128), ("opcode", J.ofNat ((h.bits0 / 16) % 8)), ("aa", bitJ h.bits0 4),
       ("tc", bitJ h.bits0 2), ("rd", bitJ h.bits0 1), ("ra", bitJ h.bits1 128), ("z", bitJ h.bits1 64), ("ad", bitJ h.bits1 32),
-      ("cd", bitJ h.bits1 16), ("rcode", J.ofNat (h.bits1 % 16))])
+      ("cd", bitJ h.bits1 16), ("rcode", J.ofNat (h.bits1 % 16)),
+      ("questions", J.arr (h.questions.map fun q => J.arr [J.ofBytes q.name, J.ofNat q.qtype, J.ofNat q.qclass])),
+      ("answers", J.arr (h.answers.map rrJ)), ("authorities", J.arr (h.authorities.map rrJ)), ("additional", J.arr (h.additional.map rrJ))])
   | .ipv6 h => ("ipv6", true, [("v", J.ofNat h.v), ("tc", J.ofNat h.tc), ("flow", J.ofNat h.flow), ("payload_length", J.ofNat h.plen),
       ("nh", J.ofNat h.nh), ("hop_limit", J.ofNat h.hop), ("srcip", J.ofBytes h.src), ("dstip", J.ofBytes h.dst),
       ("ext", J.arr (h.exts.map fun (t, nh, b) => J.arr [J.ofNat t, J.ofNat nh, J.ofBytes b]))])
@@ -163,7 +168,12 @@ def handle (j : J) : Except String J := do
       | _ => []
     let has (t : String) : Bool := fixes.contains t
     let fx : Fix := ⟨has "K5", has "K6", has "K7", has "K8", has "K9", has "K10", has "K13", has "K14", has "K16"⟩
-    let cfg ← if cfgName = "repaired" then pure (Cfg.repairedWith fx) else if cfgName = "head" then pure Cfg.head
+    -- "var": ["D46", …] = the result-changing repairs of other properties that the tree has
+    let vars : List String := match j.get? "var" with
+      | some (J.arr xs) => xs.filterMap fun x => match x with | J.str t => some t | _ => none
+      | _ => []
+    let vr : Var := ⟨vars.contains "D50", vars.contains "D49", vars.contains "D48", vars.contains "D46"⟩
+    let cfg ← if cfgName = "repaired" then pure (Cfg.tree fx vr) else if cfgName = "head" then pure Cfg.head
               else if cfgName = "core" then pure Cfg.core else throw s!"unknown cfg {cfgName}"
     let d := match ← j.optNat "d" with
       | some d => d
